@@ -558,6 +558,11 @@ func report(p *Property, tier string, seed int64, m *merged, wall float64) int {
 		}
 	}
 	replayDir := filepath.Join(verifDir, "replay", p.ID)
+	if old, _ := filepath.Glob(filepath.Join(replayDir, tier+"-*.json")); len(old) > 0 {
+		for _, f := range old { // replay files of earlier runs of this tier would only confuse
+			os.Remove(f)
+		}
+	}
 	for i, s := range sigs {
 		v := bySig[s]
 		h := sha1.Sum([]byte(s))
